@@ -61,6 +61,12 @@ def main():
         meta["demo_output_with_change"] = o1.strip()[-600:]
         meta["confirmed"] = suite_ok and rc1 != 0 and rc0 == 0
         print(f"confirm: suite_ok={suite_ok} demo with={rc1} without={rc0}")
+    if "--confirm-only" in sys.argv:
+        mp = os.path.join(out, "meta.json")
+        old = json.load(open(mp)) if os.path.exists(mp) else {}
+        old.update(meta)
+        json.dump(old, open(mp, "w"), indent=1)
+        return
     # scratch copy with the change
     scratch = f"/tmp/mrepo_{pid}_{n}_{os.getpid()}"
     sh(f"rsync -a --exclude .git --exclude mutants {wt}/ {scratch}/")
